@@ -1,4 +1,5 @@
 import ShredModel.Lemmas.Scenario
+import ShredModel.Lemmas.NestedTop
 /-!
 # C01 — isolation: conflicting systems never run at the same time
 
@@ -28,4 +29,16 @@ theorem C01_isolation (l : List (Ev SysTag)) (hl : Traces sc.plan l)
 end Scenario
 end Shred
 
+namespace Shred
+/-- **C01 with batches, at any nesting depth** (`Level`: see Props/C07.lean): two distinct
+instances inside their windows at the same time are a batch and something inside it, or do not
+conflict. -/
+theorem C01_isolation_nested {D : SysTag → Decl} (L : Level D) (par : Bool) (pfx : Inst) (l : List (Ev Inst))
+    (hl : Traces (L.task par pfx) l) (p : List (Ev Inst)) (hp : p <+: l) (x y : Inst) (hxy : x ≠ y)
+    (hx : OpenIn x p) (hy : OpenIn y p) :
+    Anc (L.task par pfx) x y ∨ Anc (L.task par pfx) y x ∨ ¬ conflictsD (D (lastTag x)) (D (lastTag y)) :=
+  traces_isolated (compatI_symm D) hl (L.wf par pfx) (L.nodup par pfx) p hp x y hxy hx hy
+end Shred
+
 #print axioms Shred.Scenario.C01_isolation
+#print axioms Shred.C01_isolation_nested
